@@ -1364,6 +1364,8 @@ class Interp(object):
             raise Uninterpretable('os.listdir without a modelled file system')
         d = str(args[0]).rstrip('/')
         if d not in self.fs_dirs:
+            if d in (getattr(self, 'fs_plain_files', None) or ()) or (self.fs is not None and self._below_a_file(d)):
+                raise InterpRaise('NotADirectoryError', d)      # a path entry that is an archive, a file inside a package
             raise InterpRaise('FileNotFoundError', d)
         return list(self.fs_dirs[d])
 
